@@ -1,0 +1,12 @@
+//go:build verif
+
+package jsonata
+
+import "github.com/blues/jsonata-go/jparse"
+
+// VerifNode returns the root of the parsed expression held by e. It is
+// only compiled with the "verif" build tag and is used by the external
+// verification harness to compare the tree before and after evaluation.
+func VerifNode(e *Expr) jparse.Node {
+	return e.node
+}
